@@ -794,6 +794,12 @@ func runCase(t failer, c *ev.Collector, cs Case) (info caseInfo) {
 			v, err := ctl.Recv()
 			outstanding--
 			if err != nil {
+				var again bool
+				if v, err, again = recvAgainIfStalled(ctl, err, startGap); again {
+					c.Inconclusive("process frozen %.0fs while waiting for a reply in %s; read repeated", float64(maxGapNs.Load())/1e9, prefix)
+				}
+			}
+			if err != nil {
 				fail("transport", fmt.Sprintf("step %d %s: %v", n, t38.CmdString(args), err))
 			}
 			if v.IsErr() {
@@ -989,6 +995,9 @@ func runCase(t failer, c *ev.Collector, cs Case) (info caseInfo) {
 	for {
 		v, err := sub.Recv()
 		if err != nil {
+			v, err, _ = recvAgainIfStalled(sub, err, startGap)
+		}
+		if err != nil {
 			fail("channel:stream-broken", fmt.Sprintf("subscriber connection: %v", err))
 		}
 		if v.Kind != '*' || len(v.Arr) != 3 || v.Arr[0].Str != "message" {
@@ -1040,6 +1049,7 @@ func runCase(t failer, c *ev.Collector, cs Case) (info caseInfo) {
 	// expected list is complete (its tail is the closing sequence)
 	waitStream := func(i int, r *fenceRun, obs string, st *stream, exp []xmsg, hook string) {
 		deadline := time.Now().Add(waitBudget())
+		extended := false
 		parse := func() []gmsg {
 			raw := st.snapshot()
 			out := make([]gmsg, len(raw))
@@ -1064,7 +1074,14 @@ func runCase(t failer, c *ev.Collector, cs Case) (info caseInfo) {
 				return
 			}
 			if time.Now().After(deadline) {
-				judge(i, r, obs, exp, got, hook, true)
+				// the budget may have run out while the whole process was frozen
+				time.Sleep(100 * time.Millisecond)
+				if g := maxGapNs.Load(); !extended && g > startGap && g > int64(5*time.Second) {
+					extended = true
+					deadline = time.Now().Add(waitBudget())
+					continue
+				}
+				judge(i, r, obs, exp, parse(), hook, true)
 				return
 			}
 			if judge(i, r, obs, exp, got, hook, false) {
